@@ -165,8 +165,17 @@ Definition result_of (g : position) (e : dentry) : N :=
   let '(w, l) := if Bool.eqb attacker_white (to_move_white g) then (mover_wins, mover_loses) else (mover_loses, mover_wins) in
   if w then 1 else if l then 2 else 0.
 
+Definition dstate0 (table_entries : nat) : dstate :=
+  {| dtable := repeat dentry0 table_entries; dstack := []; killers := [];
+     dst := {| ds_rep := 0; ds_term := 0; ds_solved := 0; ds_hits := 0; ds_miss := 0 |}; dfuel_out := false |}.
+
+(* Prove(): a root whose game is already over is decided by terminalBounds (mid only tests the children it generates) *)
 Definition prove (lfuel dfuel : nat) (table_entries : nat) (g : position) : dstate * dentry * N :=
-  mid lfuel dfuel {| dtable := repeat dentry0 table_entries; dstack := []; killers := [];
-             dst := {| ds_rep := 0; ds_term := 0; ds_solved := 0; ds_hits := 0; ds_miss := 0 |}; dfuel_out := false |}
-      g (INF / 2) (INF / 2) {| d_phi := 1; d_delta := 1; d_hash := hash_of g; d_work := 0; d_pv := move0 |}.
+  let root := {| d_phi := 1; d_delta := 1; d_hash := hash_of g; d_work := 0; d_pv := move0 |} in
+  match game_over g with
+  | Some (true, who) =>
+    let '(ph, de) := terminal_bounds g who in
+    (dstate0 table_entries, {| d_phi := ph; d_delta := de; d_hash := hash_of g; d_work := 0; d_pv := move0 |}, 0)
+  | _ => mid lfuel dfuel (dstate0 table_entries) g (INF / 2) (INF / 2) root
+  end.
 End D.
